@@ -3,6 +3,10 @@ CONSTANTS
   N = 3
   DSNames = {"empty", "tiny", "tiny2"}
   MaxExtra = 2
+  SkipSet = {"sync", "jump", "unknown", "unknown0", "unknownL", "byte"}
+  HdrSet = {"bbox", "filets"}
+  RefPolicy = "any"
+  BulkN = 5
   RoleLimit = 250
   ExportHist = TRUE
 INVARIANTS DecodedOK Export
